@@ -12,6 +12,8 @@ CONSTANTS
   CfiLayouts = {"none", "proc_all", "proc_each", "proc_rs"}
   Isa = "x64"
   WithScopes = FALSE
+  Leads = {0}
+  DropFnTables = {FALSE}
   ExtraData = {FALSE}
   Retargets = {FALSE}
   AlignOpts = {0}
